@@ -500,7 +500,9 @@ def r132(ctx, rep, f, ev, cg, reach, O):
         for c in rclos:
             ctb = ev.tb(c)
             ops = [n["op"] for _, n in ctb.walk() if n["k"] == "Binary"] if ctb is not None else []
-            if ops == ["Ne"]:
+            # `x != *fl` on the values is a Binary Ne; `x != fl` on the two references is the call PartialEq::ne
+            necalls = [c_.get("fn") or "" for _, c_ in ctb.calls()] if ctb is not None else []
+            if ops == ["Ne"] or (not ops and len(necalls) == 1 and necalls[0].startswith("core::cmp::PartialEq::ne")):
                 retain_ok += 1
         want_n = 1 if by_index else len(O["inner_groups"])
         if by_index:
